@@ -81,3 +81,443 @@ Lemma fn_names_ok_of_test sch :
 Proof.
   intros H n d rest Hin. rewrite forallb_forall in H. apply name_ok_propagates. exact (H (n, d) Hin).
 Qed.
+
+(* ---- what does not depend on the nesting limit ---- *)
+Lemma lbind_ext {A B} (r : lres A) (k1 k2 : A -> bytes -> lres B) :
+  (forall a rest, k1 a rest = k2 a rest) -> lbind r k1 = lbind r k2.
+Proof. intros H. destruct r; cbn; auto. Qed.
+
+Lemma lex_indexes_st sch st1 st2 fuel : forall input t acc,
+  lex_indexes sch st1 fuel input t acc = lex_indexes sch st2 fuel input t acc.
+Proof.
+  induction fuel as [|f IH]; intros input t acc; [reflexivity|]. cbn [lex_indexes].
+  destruct (starts_with [91] input); [|reflexivity].
+  apply lbind_ext. intros idx rest1. apply lbind_ext. intros [] rest2.
+  destruct (index_step t idx); [apply IH|reflexivity].
+Qed.
+
+Lemma with_lhs_st sch st1 st2 f d1 d2 input lhs :
+  st_star_limit st1 = st_star_limit st2 ->
+  lex_with_lhs sch st1 f d1 input lhs = lex_with_lhs sch st2 f d2 input lhs.
+Proof.
+  intros H. destruct f as [|f]; [reflexivity|]. cbn [lex_with_lhs]. unfold lex_wildcard. rewrite H. reflexivity.
+Qed.
+
+(* an accepted comparison is a comparison on the given left-hand side *)
+Lemma with_lhs_shape sch st f d input lhs e rest :
+  lex_with_lhs sch st f d input lhs = LOk e rest -> exists op, e = EComparison lhs op.
+Proof.
+  destruct f as [|f]; [discriminate|]. cbn [lex_with_lhs]. cbv zeta.
+  repeat first
+    [ match goal with
+      | |- LOk (EComparison lhs ?op) _ = LOk e rest -> _ =>
+          let Hx := fresh "Hx" in intros Hx; injection Hx as <- _; eexists; reflexivity
+      | |- LErr _ _ _ = _ -> _ => discriminate
+      | |- LPanic = _ -> _ => discriminate
+      | |- LFuel = _ -> _ => discriminate
+      | |- lbind ?r ?k = LOk e rest -> _ =>
+          let Hy := fresh "Hy" in intros Hy; apply lbind_ok in Hy; destruct Hy as (? & ? & _ & Hy); revert Hy
+      | |- (match ?x with _ => _ end) = _ -> _ => destruct x
+      | |- (if ?c then _ else _) = _ -> _ => destruct c
+      end ].
+Qed.
+
+Lemma increase_ok st d at_ d' r : increase st d at_ = LOk d' r -> d' = d + 1 /\ d < st_max_depth st.
+Proof. unfold increase. destruct (N.leb_spec (st_max_depth st) d) as [Hle|Hlt]; [discriminate|]. intros H. injection H as <- _. auto. Qed.
+
+Lemma increase_intro st d at_ : d < st_max_depth st -> increase st d at_ = LOk (d + 1) [].
+Proof. intros H. unfold increase. destruct (N.leb_spec (st_max_depth st) d) as [Hle|Hlt]; [lia|reflexivity]. Qed.
+
+(* ---- the result of the chain loops contains their left operand ---- *)
+Lemma chain_depth sch st f :
+  (forall d lhs minp la e r, lex_more sch st f d lhs minp la = LOk e r -> (depth_lexpr lhs <= depth_lexpr e)%nat) /\
+  (forall d rhs rest op p r, lex_inner sch st f d rhs rest op = LOk p r -> (depth_lexpr rhs <= depth_lexpr (fst p))%nat).
+Proof.
+  induction f as [|f [IHm IHi]]; [split; intros; discriminate|]. split.
+  - intros d lhs minp [o lrest] e r H. cbn [lex_more fst snd] in H. destruct o as [op|]; [|now injection H as <- _].
+    apply lbind_ok in H. destruct H as (rhs & rhs_rest & Hs & H).
+    destruct (lex_inner sch st f d rhs rhs_rest op) as [[rhs' la'] rr'|k a n| |] eqn:Ei; try discriminate.
+    destruct (ty_lexpr sch lhs); [|discriminate]. destruct (ty_lexpr sch rhs'); [|discriminate].
+    destruct (types_combinable _ _); [|discriminate].
+    apply IHm in H. rewrite depth_combine in H. lia.
+  - intros d rhs rest op p r H. cbn [lex_inner] in H. cbv zeta in H.
+    destruct (Nat.leb _ _); [injection H as <- _; cbn; lia|].
+    destruct (lex_more sch st f d rhs (fst (lex_combining_op rest)) (lex_combining_op rest)) as [rhs' rest'|k a n| |] eqn:Em;
+      try discriminate.
+    apply IHm in Em. apply IHi in H. lia.
+Qed.
+
+(* the right operand found by the loop is also contained in the result *)
+Lemma more_rhs_depth sch st f d lhs minp op lrest e r rhs rhs_rest :
+  lex_more sch st (S f) d lhs minp (Some op, lrest) = LOk e r ->
+  lex_simple sch st f d lrest = LOk rhs rhs_rest ->
+  (depth_lexpr rhs <= depth_lexpr e)%nat.
+Proof.
+  intros H Hs. cbn [lex_more fst snd] in H. rewrite Hs in H. cbn [lbind] in H.
+  destruct (lex_inner sch st f d rhs rhs_rest op) as [[rhs' la'] rr'|k a n| |] eqn:Ei; try discriminate.
+  destruct (ty_lexpr sch lhs); [|discriminate]. destruct (ty_lexpr sch rhs'); [|discriminate].
+  destruct (types_combinable _ _); [|discriminate].
+  apply (proj2 (chain_depth sch st f)) in Ei. apply (proj1 (chain_depth sch st f)) in H. cbn [fst] in Ei.
+  rewrite depth_combine in H. lia.
+Qed.
+
+(* ---- identifiers that resolve to functions pass the identifier test ---- *)
+Lemma find_fn_in name l : forall k i, find_fn name l k = Some i -> exists n d, In (n, d) l /\ bytes_eqb name n = true.
+Proof.
+  induction l as [|[n d] l IH]; intros k i H; cbn in H; [discriminate|].
+  destruct (bytes_eqb name n) eqn:E.
+  - exists n, d. split; [now left|exact E].
+  - destruct (IH _ _ H) as (n' & d' & Hin & He). exists n', d'. split; [now right|exact He].
+Qed.
+
+Lemma bytes_eqb_eq' a : forall b, bytes_eqb a b = true -> a = b.
+Proof.
+  induction a as [|x a IH]; intros [|y b] H; cbn in H; try discriminate; [reflexivity|].
+  apply andb_true_iff in H. destruct H as [H1 H2]. apply N.eqb_eq in H1. subst. f_equal. auto.
+Qed.
+
+Lemma lex_ident_name_prefix i name rest : lex_ident_name i = LOk name rest -> i = name ++ rest.
+Proof.
+  intros H. pose proof (lpost_ok_suffix _ _ _ _ _ (lex_ident_name_post i) H) as [p Hp].
+  unfold lex_ident_name in H. apply lbind_ok in H. destruct H as ([] & rest0 & _ & H). injection H as <- <-.
+  subst i. unfold span_len. rewrite app_length. replace (length p + length rest0 - length rest0)%nat with (length p) by lia.
+  rewrite firstn_app, firstn_all, Nat.sub_diag. cbn. now rewrite app_nil_r.
+Qed.
+
+Ltac dsc := (cbv beta iota; discriminate).
+
+Section Limit.
+Variable sch : scheme.
+Variables st1 st2 : settings.
+Hypothesis Hstar : st_star_limit st1 = st_star_limit st2.
+Hypothesis Hnames : fn_names_ok sch.
+Local Notation M2 := (N.to_nat (st_max_depth st2)).
+
+Lemma index_st_indep f d input :
+  arg_propagates input = false -> lex_index_expr sch st1 f d input = lex_index_expr sch st2 f d input.
+Proof.
+  intros Hp. destruct f as [|f]; [reflexivity|]. cbn [lex_index_expr].
+  destruct (lex_ident_name input) as [name rest0|k a n| |] eqn:En; try reflexivity.
+  destruct (scheme_get sch name) as [[i|i]|] eqn:Eg; try reflexivity.
+  - destruct (field_ty sch i); [|reflexivity]. now rewrite (lex_indexes_st sch st1 st2).
+  - exfalso. unfold scheme_get in Eg. destruct (find_field name (sc_fields sch) 0); [discriminate|].
+    destruct (find_fn name (sc_functions sch) 0) as [j|] eqn:Ef; [|discriminate].
+    destruct (find_fn_in _ _ _ _ Ef) as (n' & d' & Hin & He). apply bytes_eqb_eq' in He. subst n'.
+    apply lex_ident_name_prefix in En. subst input.
+    rewrite (Hnames name d' rest0 Hin) in Hp. discriminate.
+Qed.
+
+Lemma call_args_extends f : forall d input def acc l r,
+  lex_call_args sch st1 f d input def acc = LOk l r -> exists more, l = acc ++ more.
+Proof.
+  induction f as [|f IH]; intros d input def acc l r H; [discriminate H|]. cbn [lex_call_args] in H. cbv zeta in H.
+  assert (Hfin : forall i, (if Nat.ltb (length acc) (if fn_variadic_same def then 2%nat else length (fn_params def))
+                            then LErr EInvalidArgumentsCount i (length i)
+                            else lbind (expect [41] i) (fun _ rest => LOk acc rest)) = LOk l r ->
+                           exists more, l = acc ++ more).
+  { intros i. destruct (Nat.ltb _ _); [intros Hq; discriminate Hq|]. intros Hx. apply lbind_ok in Hx. destruct Hx as (? & ? & _ & Hx).
+    injection Hx as <- _. exists []. now rewrite app_nil_r. }
+  assert (Hgo : lbind (if Nat.eqb (length acc) 0 then LOk tt input else expect [44] input)
+        (fun _ input1 =>
+           match lex_arg sch st1 f d (skip_space input1) with
+           | LOk a rest =>
+               if Nat.ltb 0 (arg_map_each_count a) && negb (Nat.eqb (length acc) 0)
+               then LErr EInvalidMapEachAccess (skip_space input1) (span_len (skip_space input1) rest)
+               else if negb (fn_variadic_same def)
+                       && Nat.leb (length (fn_params def) + length (fn_opt_params def)) (length acc)
+               then LErr EInvalidArgumentsCount (skip_space input1) (length (skip_space input1))
+               else
+                 match ty_arg sch a with
+                 | None => LPanic
+                 | Some t =>
+                     match check_param sch def acc a t with
+                     | PcOk => lex_call_args sch st1 f d (skip_space rest) def (acc ++ [a])
+                     | PcKind => LErr EInvalidArgumentKind (skip_space input1) (span_len (skip_space input1) rest)
+                     | PcType => LErr EInvalidArgumentType (skip_space input1) (span_len (skip_space input1) rest)
+                     | PcUnreachable => LPanic
+                     end
+                 end
+           | LErr k a n => LErr k a n
+           | LPanic => LPanic
+           | LFuel => LFuel
+           end) = LOk l r -> exists more, l = acc ++ more).
+  { intros Hx. apply lbind_ok in Hx. destruct Hx as ([] & input1 & _ & Hx).
+    revert Hx. destruct (lex_arg sch st1 f d (skip_space input1)) as [a rest|k aa n| |]; try dsc.
+    destruct (Nat.ltb 0 (arg_map_each_count a) && _); [dsc|]. destruct (negb (fn_variadic_same def) && _); [dsc|].
+    destruct (ty_arg sch a); [|dsc]. destruct (check_param sch def acc a t); try dsc.
+    intros Hx. apply IH in Hx. destruct Hx as (more & ->). exists (a :: more). now rewrite <- app_assoc. }
+  revert H. destruct input as [|b rr]; [apply Hfin|].
+  destruct (N.eq_dec b 41) as [->|N41]; [apply Hfin|].
+  other_byte b Hgo.
+Qed.
+
+Lemma depth_args_in l a : In a l -> (depth_arg a <= depth_args (args_of_list l))%nat.
+Proof.
+  induction l as [|x l IH]; intros H; [destruct H|]. cbn [args_of_list depth_args].
+  destruct H as [->|H]; [lia|]. specialize (IH H). lia.
+Qed.
+
+Tactic Notation "lb" hyp(H) ident(x) ident(rest) ident(Hx) :=
+  apply lbind_ok in H; destruct H as (x & rest & Hx & H).
+
+Record LIM (f : nat) : Prop := {
+  lim_logical : forall d i e r, lex_logical sch st1 f d i = LOk e r ->
+      (N.to_nat d + depth_lexpr e <= M2)%nat -> lex_logical sch st2 f d i = LOk e r;
+  lim_more : forall d lhs minp la e r, lex_more sch st1 f d lhs minp la = LOk e r ->
+      (N.to_nat d + depth_lexpr e <= M2)%nat -> lex_more sch st2 f d lhs minp la = LOk e r;
+  lim_inner : forall d rhs rest op p r, lex_inner sch st1 f d rhs rest op = LOk p r ->
+      (N.to_nat d + depth_lexpr (fst p) <= M2)%nat -> lex_inner sch st2 f d rhs rest op = LOk p r;
+  lim_simple : forall d i e r, lex_simple sch st1 f d i = LOk e r ->
+      (N.to_nat d + depth_lexpr e <= M2)%nat -> lex_simple sch st2 f d i = LOk e r;
+  lim_index : forall d i e r, lex_index_expr sch st1 f d i = LOk e r ->
+      (N.to_nat d + depth_iexpr e <= M2)%nat -> lex_index_expr sch st2 f d i = LOk e r;
+  lim_call : forall d i fn a r, lex_call sch st1 f d i fn = LOk a r ->
+      (N.to_nat d + depth_args a <= M2)%nat -> lex_call sch st2 f d i fn = LOk a r;
+  lim_call_args : forall d i def acc l r, lex_call_args sch st1 f d i def acc = LOk l r ->
+      (forall a, In a l -> (N.to_nat d + depth_arg a <= M2)%nat) -> lex_call_args sch st2 f d i def acc = LOk l r;
+  lim_arg : forall d i a r, lex_arg sch st1 f d i = LOk a r ->
+      (N.to_nat d + depth_arg a <= M2)%nat -> lex_arg sch st2 f d i = LOk a r;
+}.
+
+Lemma LIM_0 : LIM 0.
+Proof. constructor; intros; discriminate. Qed.
+
+Lemma lt_of_bound d n : (N.to_nat d + S n <= M2)%nat -> d < st_max_depth st2.
+Proof. intros H. lia. Qed.
+
+Lemma succ_bound d n : (N.to_nat d + S n <= M2)%nat -> (N.to_nat (d + 1) + n <= M2)%nat.
+Proof. intros H. lia. Qed.
+
+Lemma LIM_S f : LIM f -> LIM (S f).
+Proof.
+  intros IH. constructor.
+  - (* logical *)
+    intros d i e r H B. cbn [lex_logical] in H |- *. lb H lhs rest0 Hs.
+    pose proof (proj1 (chain_depth sch st1 f) _ _ _ _ _ _ H) as Dl.
+    rewrite (lim_simple f IH _ _ _ _ Hs ltac:(lia)). cbn [lbind]. apply (lim_more f IH); assumption.
+  - (* more *)
+    intros d lhs minp [o lrest] e r H B. pose proof H as H0. cbn [lex_more fst snd] in H |- *.
+    destruct o as [op|]; [|exact H]. lb H rhs rhs_rest Hs.
+    pose proof (more_rhs_depth sch st1 f d lhs minp op lrest e r rhs rhs_rest H0 Hs) as Dr.
+    rewrite (lim_simple f IH _ _ _ _ Hs ltac:(lia)). cbn [lbind].
+    destruct (lex_inner sch st1 f d rhs rhs_rest op) as [[rhs' la'] rr'|k a n| |] eqn:Ei; try discriminate H.
+    destruct (ty_lexpr sch lhs) as [tl|] eqn:Etl; [|discriminate H]. destruct (ty_lexpr sch rhs') as [tr|] eqn:Etr; [|discriminate H].
+    destruct (types_combinable tl tr) eqn:Ecb; [|discriminate H].
+    pose proof (proj1 (chain_depth sch st1 f) _ _ _ _ _ _ H) as Dc. rewrite depth_combine in Dc.
+    rewrite (lim_inner f IH _ _ _ _ _ _ Ei ltac:(cbn [fst]; lia)). rewrite ?Etl, Etr, Ecb.
+    apply (lim_more f IH); assumption.
+  - (* inner *)
+    intros d rhs rest op p r H B. cbn [lex_inner] in H |- *. cbv zeta in H |- *.
+    destruct (Nat.leb _ _); [exact H|].
+    destruct (lex_more sch st1 f d rhs (fst (lex_combining_op rest)) (lex_combining_op rest)) as [rhs' rest'|k a n| |] eqn:Em;
+      try discriminate H.
+    pose proof (proj2 (chain_depth sch st1 f) _ _ _ _ _ _ H) as Di.
+    rewrite (lim_more f IH _ _ _ _ _ _ Em ltac:(lia)). apply (lim_inner f IH); assumption.
+  - (* simple *)
+    intros d i e r H B. cbn [lex_simple] in H |- *.
+    destruct (starts_with [40] i) as [r0|].
+    { lb H d' x Hi. destruct (increase_ok _ _ _ _ _ Hi) as [-> Hlt1]. clear Hi.
+      lb H e1 rest1 Hl. lb H u rest2 He. injection H as <- <-. cbn [depth_lexpr] in B.
+      rewrite (increase_intro st2 d i (lt_of_bound _ _ B)). cbn [lbind].
+      rewrite (lim_logical f IH _ _ _ _ Hl (succ_bound _ _ B)). cbn [lbind]. rewrite He. reflexivity. }
+    destruct (lex_alts unary_ops i) as [[u r0]|].
+    { lb H d' x Hi. destruct (increase_ok _ _ _ _ _ Hi) as [-> Hlt1]. clear Hi.
+      lb H e1 rest1 Hl. injection H as <- <-. cbn [depth_lexpr] in B.
+      rewrite (increase_intro st2 d i (lt_of_bound _ _ B)). cbn [lbind].
+      rewrite (lim_simple f IH _ _ _ _ Hl (succ_bound _ _ B)). reflexivity. }
+    destruct (lex_quant_call i) as [[q r0]|].
+    { lb H d' x Hi. destruct (increase_ok _ _ _ _ _ Hi) as [-> Hlt1]. clear Hi.
+      lb H u rest1 He. cbv zeta in H |- *.
+      destruct (lex_arg sch st1 f (d + 1) (skip_space rest1)) as [a rest2|k aa n| |] eqn:Ea; try discriminate H.
+      assert (Hgoal : forall (Ba : (N.to_nat d + S (depth_arg a) <= M2)%nat),
+                lbind (increase st2 d (skip_space r0))
+                  (fun d'0 _ => lbind (expect [40] (skip_space r0))
+                     (fun _ rest3 =>
+                        match lex_arg sch st2 f d'0 (skip_space rest3) with
+                        | LOk a0 rest4 =>
+                            match a0 with
+                            | AIndex ie =>
+                                if Nat.ltb 0 (map_each_count (iexpr_idx ie))
+                                then LErr EInvalidMapEachAccess (skip_space rest3) (span_len (skip_space rest3) rest4)
+                                else
+                                  match ty_iexpr sch ie with
+                                  | Some (TArray TBool) =>
+                                      lbind (expect [41] (skip_space rest4)) (fun _ rest5 => LOk (EQuantIndex q ie) rest5)
+                                  | Some _ => LErr ETypeMismatch (skip_space rest3) (span_len (skip_space rest3) rest4)
+                                  | None => LPanic
+                                  end
+                            | ALit _ => LErr ETypeMismatch (skip_space rest3) (span_len (skip_space rest3) rest4)
+                            | ALogical le =>
+                                match ty_lexpr sch le with
+                                | Some (TArray TBool) =>
+                                    lbind (expect [41] (skip_space rest4)) (fun _ rest5 => LOk (EQuantLogical q le) rest5)
+                                | Some _ => LErr ETypeMismatch (skip_space rest3) (span_len (skip_space rest3) rest4)
+                                | None => LPanic
+                                end
+                            end
+                        | LErr k a0 n => LErr k a0 n
+                        | LPanic => LPanic
+                        | LFuel => LFuel
+                        end)) = LOk e r).
+      { intros Ba. rewrite (increase_intro st2 d _ (lt_of_bound _ _ Ba)). cbn [lbind]. rewrite He. cbn [lbind].
+        rewrite (lim_arg f IH _ _ _ _ Ea (succ_bound _ _ Ba)). exact H. }
+      destruct a as [ie|lit|le].
+      - apply Hgoal. revert H. destruct (Nat.ltb 0 _); [discriminate|].
+        destruct (ty_iexpr sch ie) as [[| | | |[]|]|]; try discriminate. intros H. lb H u2 rest3 He2.
+        injection H as <- _. cbn [depth_lexpr depth_arg] in *. exact B.
+      - discriminate H.
+      - apply Hgoal. revert H. destruct (ty_lexpr sch le) as [[| | | |[]|]|]; try discriminate. intros H. lb H u2 rest3 He2.
+        injection H as <- _. cbn [depth_lexpr depth_arg] in *. exact B. }
+    lb H lhs rest0 Hi. destruct (with_lhs_shape _ _ _ _ _ _ _ _ H) as (op & ->). cbn [depth_lexpr] in B.
+    rewrite (lim_index f IH _ _ _ _ Hi B). cbn [lbind]. rewrite <- (with_lhs_st sch st1 st2 f d d rest0 lhs Hstar). exact H.
+  - (* index expression *)
+    intros d i e r H B. cbn [lex_index_expr] in H |- *.
+    destruct (lex_ident_name i) as [name rest0|k a n| |]; try discriminate H.
+    destruct (scheme_get sch name) as [[j|j]|]; [| |discriminate H].
+    + destruct (field_ty sch j); [|discriminate H]. rewrite (lex_indexes_st sch st2 st1). exact H.
+    + destruct (increase st1 d (skip_space rest0)) as [d' x|k a n| |] eqn:Hi; try discriminate H.
+      destruct (increase_ok _ _ _ _ _ Hi) as [-> Hlt1].
+      destruct (lex_call sch st1 f (d + 1) rest0 j) as [a rest1|k a n| |] eqn:Ec; try discriminate H.
+      destruct (ty_call sch j a) as [t|] eqn:Et; [|discriminate H].
+      pose proof H as H0. apply lmap_ok in H0. destruct H0 as (idx & _ & ->). cbn [depth_iexpr] in B.
+      rewrite (increase_intro st2 d _ (lt_of_bound _ _ B)).
+      rewrite (lim_call f IH _ _ _ _ _ Ec (succ_bound _ _ B)). rewrite Et.
+      rewrite (lex_indexes_st sch st2 st1). exact H.
+  - (* call *)
+    intros d i fn a r H B. cbn [lex_call] in H |- *. destruct (fn_of sch fn) as [def|]; [|discriminate H].
+    lb H u rest He. rewrite He. cbn [lbind]. pose proof H as H0. apply lmap_ok in H0. destruct H0 as (l & Hl & ->).
+    rewrite (lim_call_args f IH _ _ _ _ _ _ Hl); [reflexivity|].
+    intros x Hx. pose proof (depth_args_in l x Hx). lia.
+  - (* call arguments *)
+    intros d i def acc l r H B. cbn [lex_call_args] in H |- *. cbv zeta in H |- *.
+    set (GO := fun (st : settings) (input : bytes) =>
+      lbind (if Nat.eqb (length acc) 0 then LOk tt input else expect [44] input)
+        (fun _ input1 =>
+           match lex_arg sch st f d (skip_space input1) with
+           | LOk a rest =>
+               if Nat.ltb 0 (arg_map_each_count a) && negb (Nat.eqb (length acc) 0)
+               then LErr EInvalidMapEachAccess (skip_space input1) (span_len (skip_space input1) rest)
+               else if negb (fn_variadic_same def)
+                       && Nat.leb (length (fn_params def) + length (fn_opt_params def)) (length acc)
+               then LErr EInvalidArgumentsCount (skip_space input1) (length (skip_space input1))
+               else
+                 match ty_arg sch a with
+                 | None => LPanic
+                 | Some t =>
+                     match check_param sch def acc a t with
+                     | PcOk => lex_call_args sch st f d (skip_space rest) def (acc ++ [a])
+                     | PcKind => LErr EInvalidArgumentKind (skip_space input1) (span_len (skip_space input1) rest)
+                     | PcType => LErr EInvalidArgumentType (skip_space input1) (span_len (skip_space input1) rest)
+                     | PcUnreachable => LPanic
+                     end
+                 end
+           | LErr k a n => LErr k a n
+           | LPanic => LPanic
+           | LFuel => LFuel
+           end)).
+    assert (Hgo : forall input, GO st1 input = LOk l r -> GO st2 input = LOk l r).
+    { intros input Hx. unfold GO in Hx |- *. lb Hx u input1 Hu. rewrite Hu. cbn [lbind].
+      destruct (lex_arg sch st1 f d (skip_space input1)) as [a rest|k aa n| |] eqn:Ea; try discriminate Hx.
+      revert Hx. destruct (Nat.ltb 0 (arg_map_each_count a) && _) eqn:C1; [discriminate|].
+      destruct (negb (fn_variadic_same def) && _) eqn:C2; [discriminate|].
+      destruct (ty_arg sch a) as [t|] eqn:Et; [|discriminate].
+      destruct (check_param sch def acc a t) eqn:Ecp; try discriminate. intros Hx.
+      destruct (call_args_extends _ _ _ _ _ _ _ Hx) as (more & Hl).
+      assert (Ba : (N.to_nat d + depth_arg a <= M2)%nat).
+      { apply B. rewrite Hl. apply in_or_app. left. apply in_or_app. right. now left. }
+      rewrite (lim_arg f IH _ _ _ _ Ea Ba). cbv beta iota. rewrite ?C1. cbv beta iota. rewrite ?C2. cbv beta iota. rewrite Et, Ecp.
+      apply (lim_call_args f IH); assumption. }
+    revert H. destruct i as [|b rr]; [exact (fun h => h)|].
+    destruct (N.eq_dec b 41) as [->|N41]; [exact (fun h => h)|].
+    pose proof (Hgo (b :: rr)) as Hg. unfold GO in Hg. clear Hgo.
+    destruct b as [|p]; [exact Hg|].
+    repeat (destruct p as [p|p|]; try exact Hg; try contradiction).
+  - (* argument *)
+    intros d i a r H B. cbn [lex_arg] in H |- *.
+    pose proof (eq_refl (arg_propagates i)) as Eprop. unfold arg_propagates at 1 in Eprop.
+    destruct (first_chars i) as [[c1 c2] c3]. cbv zeta in H |- *.
+    set (LIT := match lex_ip i with
+                | LOk a rest => LOk (ALit (RIp a)) rest
+                | LPanic => LPanic
+                | LFuel => LFuel
+                | LErr _ _ _ =>
+                    match lex_int i with
+                    | LOk z rest => LOk (ALit (RInt z)) rest
+                    | LPanic => LPanic
+                    | LFuel => LFuel
+                    | LErr _ _ _ =>
+                        match lex_bytes i with
+                        | LOk p rest => LOk (ALit (RBytes (fst p) (snd p))) rest
+                        | LPanic => LPanic
+                        | LFuel => LFuel
+                        | LErr _ _ _ => LErr EEOF i (length i)
+                        end
+                    end
+                end) in *.
+    set (IDX := fun (st : settings) (propagate : bool) =>
+      match lex_index_expr sch st f d i with
+      | LOk lhs rest =>
+          match lex_alts comparison_ops (skip_space rest) with
+          | Some _ => lmap ALogical (lex_with_lhs sch st f d rest lhs)
+          | None => LOk (AIndex lhs) rest
+          end
+      | LErr k a n => if propagate then LErr k a n else LIT
+      | LPanic => LPanic
+      | LFuel => LFuel
+      end).
+    assert (Hidx : forall propagate : bool, (propagate = false -> arg_propagates i = false) ->
+              IDX st1 propagate = LOk a r -> IDX st2 propagate = LOk a r).
+    { intros propagate Hp Hx. unfold IDX in Hx |- *.
+      destruct (lex_index_expr sch st1 f d i) as [lhs rest0|k aa n| |] eqn:Ei; try discriminate Hx.
+      - assert (Bl : (N.to_nat d + depth_iexpr lhs <= M2)%nat).
+        { destruct (lex_alts comparison_ops (skip_space rest0)).
+          - apply lmap_ok in Hx. destruct Hx as (e & Hx & ->). destruct (with_lhs_shape _ _ _ _ _ _ _ _ Hx) as (op & ->).
+            exact B.
+          - injection Hx as <- _. exact B. }
+        rewrite (lim_index f IH _ _ _ _ Ei Bl). rewrite <- (with_lhs_st sch st1 st2 f d d rest0 lhs Hstar). exact Hx.
+      - destruct propagate; [discriminate Hx|]. rewrite <- (index_st_indep f d i (Hp eq_refl)), Ei. exact Hx. }
+    destruct c1 as [b1|].
+    2:{ apply (Hidx false); [intros _; symmetry; exact Eprop|exact H]. }
+    destruct ((b1 =? 34) || _); [exact H|].
+    destruct (_ || _ || _).
+    { pose proof H as H0. apply lmap_ok in H0. destruct H0 as (e & He & ->). cbn [depth_arg] in B.
+      rewrite (lim_logical f IH _ _ _ _ He B). reflexivity. }
+    unfold prop3 in Eprop. match type of Eprop with ?P = _ => destruct P eqn:EP end.
+    + apply (Hidx true); [discriminate|exact H].
+    + apply (Hidx false); [intros _; symmetry; exact Eprop|exact H].
+Qed.
+
+Theorem limit_exact f : LIM f.
+Proof. induction f as [|f IH]; [apply LIM_0|now apply LIM_S]. Qed.
+
+End Limit.
+
+(* ---- closed statements ---- *)
+Lemma complete_ok {A} (x : lres A) a r : complete x = LOk a r -> x = LOk a [] /\ r = [].
+Proof. destruct x as [a' [|b rest]|k s n| |]; cbn; intros H; try discriminate. injection H as <- <-. auto. Qed.
+
+Theorem parse_filter_limit_exact sch st1 st2 text e r :
+  st_star_limit st1 = st_star_limit st2 -> fn_names_ok sch ->
+  parse_filter sch st1 text = LOk e r -> (depth_lexpr e <= N.to_nat (st_max_depth st2))%nat ->
+  parse_filter sch st2 text = LOk e r.
+Proof.
+  intros Hs Hn H B. unfold parse_filter in H |- *. apply complete_ok in H. destruct H as [H ->].
+  apply lbind_ok in H. destruct H as (e0 & rest0 & Hl & H).
+  assert (e0 = e /\ rest0 = []) as [-> ->].
+  { destruct (ty_lexpr sch e0) as [[]|]; try discriminate H. injection H as <- <-. auto. }
+  rewrite (lim_logical sch st1 st2 _ (limit_exact sch st1 st2 Hs Hn _) _ _ _ _ Hl ltac:(cbn; lia)).
+  cbn [lbind]. rewrite H. reflexivity.
+Qed.
+
+Theorem parse_value_limit_exact sch st1 st2 text e r :
+  st_star_limit st1 = st_star_limit st2 -> fn_names_ok sch ->
+  parse_value sch st1 text = LOk e r -> (depth_iexpr e <= N.to_nat (st_max_depth st2))%nat ->
+  parse_value sch st2 text = LOk e r.
+Proof.
+  intros Hs Hn H B. unfold parse_value in H |- *. apply complete_ok in H. destruct H as [H ->].
+  apply lbind_ok in H. destruct H as (e0 & rest0 & Hl & H).
+  assert (e0 = e /\ rest0 = []) as [-> ->].
+  { destruct (Nat.ltb 0 _); [discriminate H|]. injection H as <- <-. auto. }
+  rewrite (lim_index sch st1 st2 _ (limit_exact sch st1 st2 Hs Hn _) _ _ _ _ Hl ltac:(cbn; lia)).
+  cbn [lbind]. rewrite H. reflexivity.
+Qed.
